@@ -883,6 +883,7 @@ func TestVS_Session(t *testing.T) {
 	}
 	if job.Staged && len(res.Violations) == 0 {
 		ssStaged(t, job.QCap, res)
+		ssStagedCorrupt(t, job.QCap, res)
 	}
 	// seeded random histories: any applicable action, more streams, no spec expectation (oracles only)
 	rng := rand.New(rand.NewSource(job.Random.Seed))
@@ -1075,4 +1076,122 @@ func ssStaged(t *testing.T, qcap int, res *ssResult) {
 			res.Staged = append(res.Staged, fmt.Sprintf("%s: Flush returned %v, all buffers back", sc.name, ferr))
 		}()
 	}
+}
+
+// ssStagedCorrupt: fault "the peer publishes a queue element whose buffer offset is not a buffer" (a protocol bug or a
+// scribbled queue) behind a good message of the same stream. The library logs and skips the element; whatever it does
+// with it, it may not recycle a buffer twice (C09: the ledger is exact, free lists intact) nor hand out or alter a buffer
+// somebody else holds (C01), and the reader is offered exactly the good messages (C07). Sequence: good message + corrupt
+// element delivered together; the reader takes and releases the good message; another holder takes every free buffer
+// and fills it; a later message (socket fallback: memory is exhausted) makes the reader drain pending data again; both
+// ends close.
+func ssStagedCorrupt(t *testing.T, qcap int, res *ssResult) {
+	if qcap < 2 {
+		return
+	}
+	name := "corrupt-offset/behind-good-message"
+	viol := func(prop, kind, detail string) {
+		res.Violations = append(res.Violations, ssViolation{Property: prop, Kind: kind, Detail: name + ": " + detail, Schedule: "staged " + name, QCap: qcap, NStreams: 1})
+	}
+	pair, err := vpNewPair(vpConfig{Sizes: []uint32{4}, Percents: []uint32{100}, MemSize: 2048, QueueCap: uint32(qcap)})
+	if err != nil {
+		t.Fatal(err)
+	}
+	defer pair.destroy()
+	vsReset(vsOff)
+	pair.newStreamsB = nil
+	sA, _ := pair.A.OpenStream()
+	sA.BufferWriter().WriteBytes([]byte{1, 2, 3})
+	sA.Flush(false)
+	pair.settle()
+	if len(pair.newStreamsB) == 0 {
+		res.Staged = append(res.Staged, name+": setup failed")
+		return
+	}
+	sB := pair.newStreamsB[0]
+	read3 := func(step string, want []byte) bool {
+		b, err := sB.BufferReader().ReadBytes(3)
+		if err != nil || len(b) != 3 || b[0] != want[0] || b[1] != want[1] || b[2] != want[2] {
+			viol("C07", "wrong-data", fmt.Sprintf("%s: the reader expected % x and got % x, %v", step, want, b, err))
+			return false
+		}
+		sB.BufferReader().ReleasePreviousRead()
+		return true
+	}
+	if !read3("first message", []byte{1, 2, 3}) {
+		return
+	}
+	base := pair.inUse(pair.A)
+	// good message, then the corrupt element of the same stream, one notification for both
+	sA.BufferWriter().WriteBytes([]byte{4, 5, 6})
+	if err := sA.Flush(false); err != nil {
+		res.Staged = append(res.Staged, fmt.Sprintf("%s: flush: %v", name, err))
+		return
+	}
+	if err := pair.A.queueManager.sendQueue.put(queueElement{seqID: sA.id, offsetInShmBuf: 1 << 30, status: uint32(streamOpened)}); err != nil {
+		res.Staged = append(res.Staged, fmt.Sprintf("%s: cannot inject: %v", name, err))
+		return
+	}
+	pair.settle()
+	if pair.B.IsClosed() || pair.A.IsClosed() {
+		// the library may also answer a protocol fault by shutting the session down; then only the ledger is judged
+		res.Staged = append(res.Staged, name+": the session was shut down on the corrupt element")
+	} else {
+		if !read3("good message in front of the corrupt element", []byte{4, 5, 6}) {
+			return
+		}
+		if used := pair.inUse(pair.A); used != base {
+			viol("C09", "leak", fmt.Sprintf("the good message was read and released, %d buffer(s) are allocated (before the message: %d)", used, base))
+			return
+		}
+		// another holder takes every allocatable buffer and fills it
+		held := pair.hog(0)
+		for i, h := range held {
+			copy(h.data[:cap(h.data)][:4], []byte{0xA0, byte(i), 0xA1, byte(i)})
+		}
+		hdr := make([][]byte, len(held))
+		for i, h := range held {
+			hdr[i] = append([]byte(nil), h.bufferHeader[:bufferHeaderSize]...)
+		}
+		// next message: memory is exhausted, it travels on the socket; the reader drains pending data once more
+		sA.BufferWriter().WriteBytes([]byte{7, 8, 9})
+		ferr := sA.Flush(false)
+		pair.settle()
+		if ferr == nil && !read3("message after the corrupt element", []byte{7, 8, 9}) {
+			return
+		}
+		sA.Close()
+		sB.Close()
+		for _, ns := range pair.newStreamsB {
+			ns.Close()
+		}
+		pair.settle()
+		if d := pair.integrity(); d != "" {
+			viol("C09", "free-list-corrupt", "after both ends closed, while another holder keeps "+fmt.Sprint(len(held))+" buffers: "+d)
+			return
+		}
+		if used := pair.inUse(pair.A); used != base+len(held) {
+			viol("C09", "ledger", fmt.Sprintf("after both ends closed %d buffer(s) count as allocated, the other holder keeps %d (+%d before the scenario): a buffer was recycled by somebody who did not hold it", used, len(held), base))
+			return
+		}
+		for i, h := range held {
+			d := h.data[:cap(h.data)][:4]
+			if d[0] != 0xA0 || d[1] != byte(i) || d[2] != 0xA1 || d[3] != byte(i) || string(h.bufferHeader[:bufferHeaderSize]) != string(hdr[i]) {
+				viol("C09", "foreign-write", fmt.Sprintf("buffer at offset %d is held by somebody else and its header/payload was altered (payload % x, header % x -> % x)", h.offsetInShm, d, hdr[i], []byte(h.bufferHeader[:bufferHeaderSize])))
+				return
+			}
+		}
+		pair.unhog(held)
+	}
+	if !pair.A.IsClosed() && !pair.B.IsClosed() {
+		if used := pair.inUse(pair.A); used != 0 {
+			viol("C09", "leak", fmt.Sprintf("everything closed and given back, %d buffer(s) still allocated", used))
+			return
+		}
+		if d := pair.integrity(); d != "" {
+			viol("C09", "free-list-corrupt", d)
+			return
+		}
+	}
+	res.Staged = append(res.Staged, name+": reader got exactly the good messages, ledger exact, free lists intact, foreign buffers untouched")
 }
